@@ -471,7 +471,7 @@ func (f *FuncVC) loopEffects(li *loopInfo) *havocSet {
 
 func (f *FuncVC) loopHead(st *State, li *loopInfo) {
 	f.curPos = li.stmt.Pos()
-	if li.con == nil && f.con != nil && f.con.Opts["only"] == "frame" {
+	if li.con == nil && f.con != nil && (f.con.Opts["only"] == "frame" || f.con.Opts["only"] == "panics") {
 		// frame-only contract: loops need no invariant (cells not assigned in
 		// the loop keep their values); termination is not claimed
 		li.con = &LoopContract{Ordinal: li.ordinal, NoTermination: true}
